@@ -4,14 +4,18 @@ open Atomman Atomman.C15
 /-!
   Line protocol of the C15 driver (stateful: the current system lives in the driver).
 
-  `sys  v00 … v22  ox oy oz  px py pz  nsym  nkeys {key width}*  hasold  natoms {atype x y z vals… [old]}*`
+  `sys  v00 … v22  ox oy oz  px py pz  nsym  nmass {has mass}*  nkeys {key width}*  hasold  natoms {atype x y z vals… [old]}*`
         sets the current system, reply `ok <dump>`
-  `op name  hasPos x y z  hasPtd i  hasDb x y z  scale  atol  hasT t  hasO o  nkw {key len vals…}*`
+  `op name  hasPos x y z  hasPtd i  hasDb x y z  scale  hasAtol atol  hasT t  hasO o  nkw {key len vals…}*`
         name ∈ vacancy | interstitial | substitutional | dumbbell | point:<ptd_type>
         applies the insertion to the current system; reply `ok <dump>` (state replaced) or `err:<class>`
-        (state kept)
-  `sites  x y z  scale  atol`   reply: the indices matched by the site search
+        (state kept).  `hasAtol = 0` is `atol=None`: the model applies the default itself.
+  `sites  x y z  scale  hasAtol atol`   reply: the indices matched by the site search
 -/
+
+/-- `uc.set_in_units(0.01, 'angstrom')` in atomman's working units (angstrom = 1): the IEEE double
+    nearest to 0.01. -/
+def defaultAtol : Rat := 5764607523034235 / 576460752303423488
 
 abbrev P := StateT (List String) Option
 
@@ -33,6 +37,8 @@ def pSys : P (Sys Rat) := do
   let r0 ← pV3; let r1 ← pV3; let r2 ← pV3; let o ← pV3
   let px ← pBool; let py ← pBool; let pz ← pBool
   let nsym ← pNat
+  let nmass ← pNat
+  let masses ← pRep nmass (pOpt pRat)
   let nkeys ← pNat
   let kws ← pRep nkeys (do let k ← tok; let w ← pNat; pure (k, w))
   let hasold ← pBool
@@ -42,13 +48,15 @@ def pSys : P (Sys Rat) := do
     let props ← kws.mapM fun kw => pRep kw.2 pRat
     let o ← if hasold then (do let v ← pInt; pure (some v)) else pure none
     pure (({ atype := t, pos := p, props := props } : Atom Rat), o))
-  pure { box := ⟨⟨r0, r1, r2⟩, o⟩, pbc := (px, py, pz), nsym := nsym, keys := kws.map (·.1),
+  pure { box := ⟨⟨r0, r1, r2⟩, o⟩, pbc := (px, py, pz), nsym := nsym, masses := masses, keys := kws.map (·.1),
          atoms := rows.map (·.1), old := if hasold then some (rows.filterMap (·.2)) else none }
 
 def dumpSys (s : Sys Rat) : String :=
   let head := showRats (s.box.vects.toList ++ s.box.origin.toList) ++ " " ++
     showBool s.pbc.1 ++ " " ++ showBool s.pbc.2.1 ++ " " ++ showBool s.pbc.2.2 ++ " " ++
-    toString s.nsym ++ " " ++ toString s.keys.length
+    toString s.nsym ++ " " ++ toString s.masses.length ++
+    (s.masses.map fun m => match m with | some v => " 1 " ++ showRat v | none => " 0 0").foldl (· ++ ·) "" ++
+    " " ++ toString s.keys.length
   let widths := match s.atoms.head? with
     | some a => a.props.map (·.length)
     | none => s.keys.map fun _ => 0
@@ -67,7 +75,7 @@ structure OpArgs where
   ptd : Option Int
   db : Option (V3 Rat)
   scale : Bool
-  atol : Rat
+  atol : Option Rat
   kw : Kw Rat
 
 def pOp : P OpArgs := do
@@ -76,7 +84,7 @@ def pOp : P OpArgs := do
   let ptd ← pOpt pInt
   let db ← pOpt pV3
   let scale ← pBool
-  let atol ← pRat
+  let atol ← pOpt pRat
   let t ← pOpt pInt
   let o ← pOpt pInt
   let nkw ← pNat
@@ -86,19 +94,19 @@ def pOp : P OpArgs := do
 def applyOp (s : Sys Rat) (a : OpArgs) : Option (Except Err (Sys Rat)) :=
   if a.name = "vacancy" then
     -- vacancy() has no db_vect / kwargs parameters
-    if a.db.isSome || !a.kw.isEmpty then none else some (vacancy s a.pos a.ptd a.scale a.atol)
+    if a.db.isSome || !a.kw.isEmpty then none else some (vacancyC defaultAtol s a.pos a.ptd a.scale a.atol)
   else if a.name = "interstitial" then
     match a.pos, a.ptd, a.db with
-    | some p, none, none => some (interstitial s p a.scale a.atol a.kw)
+    | some p, none, none => some (interstitialC defaultAtol s p a.scale a.atol a.kw)
     | _, _, _ => none
   else if a.name = "substitutional" then
-    if a.db.isSome then none else some (substitutional s a.pos a.ptd a.scale a.atol a.kw)
+    if a.db.isSome then none else some (substitutionalC defaultAtol s a.pos a.ptd a.scale a.atol a.kw)
   else if a.name = "dumbbell" then
     match a.db with
-    | some d => some (dumbbell s a.pos a.ptd d a.scale a.atol a.kw)
+    | some d => some (dumbbellC defaultAtol s a.pos a.ptd d a.scale a.atol a.kw)
     | none => none
   else if a.name.startsWith "point:" then
-    some (point s (a.name.drop 6).toString a.pos a.ptd a.db a.scale a.atol a.kw)
+    some (pointC defaultAtol s (a.name.drop 6).toString a.pos a.ptd a.db a.scale a.atol a.kw)
   else none
 
 def step (st : Option (Sys Rat)) (toks : List String) : Option (Sys Rat) × String :=
@@ -122,9 +130,9 @@ def step (st : Option (Sys Rat)) (toks : List String) : Option (Sys Rat) × Stri
     match st with
     | none => (st, err "op")
     | some s =>
-      match (do let p ← pV3; let sc ← pBool; let atol ← pRat; pure (p, sc, atol) : P _).run rest with
+      match (do let p ← pV3; let sc ← pBool; let atol ← pOpt pRat; pure (p, sc, atol) : P _).run rest with
       | some ((p, sc, atol), []) =>
-        (st, "sites " ++ " ".intercalate ((siteMatches s (toCart s sc p) atol).map toString))
+        (st, "sites " ++ " ".intercalate ((siteMatches s (toCart s sc p) (effAtol defaultAtol atol)).map toString))
       | _ => (st, err "format")
   | _ => (st, err "op")
 
